@@ -1,11 +1,11 @@
 CONSTANTS
   NameSeq <- N3
   Slots = {1, 2}
-  MaxNodes = 8
-  MaxDepth = 3
+  MaxNodes = 16
+  MaxDepth = 2
   Actions <- RelActions
   InitDeclared = 3
-CONSTANT BuildFuns <- RelFuns
+CONSTANT BuildFuns <- RelFunsD
 INIT Init2
 NEXT NextB
 CONSTRAINT Bound
